@@ -40,7 +40,7 @@ def gen_stage(rng, stage):
         wp = world.draw_world_params(rng, cells_per_leaf=[2, rng.choice([3, 6])], blocky=False,
                                      degenerate=0.0, n_unlabelled=0, odd_names=False,
                                      shared_names=False)
-        wp['n_leaves'] = rng.choice([3, 4, 5, 6, 8])
+        wp['n_leaves'] = rng.choice([3, 4, 5, 6, 8, 10])
         wp['depth'] = rng.choice([1, 2, 3])
         if stage in ('pmask', 'pmask_markers'):
             wp['n_leaves'] = rng.choice([6, 7, 8, 10])
